@@ -67,7 +67,7 @@ func NewMethodEvaluator(
 	p.SetLastResolvedMethodT(nil)
 
 	if ctx.IsCheckRound() {
-		key := evaluatedObjectT.GetFrame() + evaluatedObjectT.GetObjectClass() + methodIdentifierT.ToString()
+		key := base.CallGraphKey(evaluatedObjectT.GetFrame(), evaluatedObjectT.GetObjectClass(), methodIdentifierT.ToString())
 		// ErrorRow, not Row: when the call is the last thing on its line the
 		// newline has been read already and Row points at the next line
 		point := p.FileName + ":" + strconv.Itoa(p.ErrorRow)
@@ -82,7 +82,7 @@ func NewMethodEvaluator(
 
 		base.MethodCallPoint[key] = append(base.MethodCallPoint[key], callPoint)
 
-		callerKey := ctx.GetFrame() + ctx.GetClass() + ctx.GetMethod()
+		callerKey := base.CallGraphKey(ctx.GetFrame(), ctx.GetClass(), ctx.GetMethod())
 		calleePoint := base.CalleePoint{
 			Point:        point,
 			CalleeFrame:  evaluatedObjectT.GetFrame(),
